@@ -405,27 +405,77 @@ impl tracing::Subscriber for EverythingOn {
 
 pub const TRACED_SUFFIX: &str = " [only with a TRACE-level tracing subscriber installed]";
 
-/// `guarded` with a thread-local everything-enabled subscriber installed for the duration of the case.
-fn guarded_traced<C>(check: &(dyn Fn(&C) -> CaseResult + Sync), case: &C) -> CaseResult {
-    let sub = EverythingOn(std::sync::atomic::AtomicU64::new(0));
-    let mut r = tracing::subscriber::with_default(sub, || guarded(check, case));
+// ---- ambient dimensions --------------------------------------------------------------------------
+// Circumstances no property statement restricts and that are not part of a case: whether a tracing
+// subscriber is installed, and what the sending connection has already been used for (`cmdlab`
+// consults `send_history()`). Which combination a case runs under is a function of its index; shrinking
+// and replay try all of them, so a replay file needs nothing but the case.
+
+#[derive(Clone, Copy, Debug, PartialEq, Eq)]
+pub struct Ambient {
+    pub traced: bool,
+    /// 0: fresh connection; 1: a long command was sent before; 2: a command list was sent before;
+    /// 3: a long command, a list and a short command were sent before
+    pub send_history: u8,
+}
+
+const PLAIN: Ambient = Ambient { traced: false, send_history: 0 };
+
+fn ambient_for(i: u64) -> Ambient {
+    Ambient { traced: i % 4 == 3, send_history: if i % 3 == 2 { 1 + ((i / 3) % 3) as u8 } else { 0 } }
+}
+
+fn all_ambients() -> impl Iterator<Item = Ambient> {
+    [false, true].into_iter().flat_map(|traced| (0..4u8).map(move |send_history| Ambient { traced, send_history }))
+}
+
+thread_local! {
+    static SEND_HISTORY: std::cell::Cell<u8> = const { std::cell::Cell::new(0) };
+}
+
+/// What the command lab's connections have sent before the command under test (see `Ambient`).
+pub fn send_history() -> u8 {
+    SEND_HISTORY.with(|c| c.get())
+}
+
+fn guarded_in<C>(a: Ambient, check: &(dyn Fn(&C) -> CaseResult + Sync), case: &C) -> CaseResult {
+    SEND_HISTORY.with(|c| c.set(a.send_history));
+    let mut r = if a.traced {
+        let sub = EverythingOn(std::sync::atomic::AtomicU64::new(0));
+        tracing::subscriber::with_default(sub, || guarded(check, case))
+    } else {
+        guarded(check, case)
+    };
+    SEND_HISTORY.with(|c| c.set(0));
     if let Outcome::Fail(reason) = &mut r.outcome {
-        reason.push_str(TRACED_SUFFIX);
+        if a.traced {
+            reason.push_str(TRACED_SUFFIX);
+        }
+        if a.send_history != 0 {
+            reason.push_str(&format!(" [on a connection that had sent other commands before: history {}]", a.send_history));
+        }
     }
-    r.classes.push("evaluated_with_trace_subscriber");
+    if a.traced {
+        r.classes.push("evaluated_with_trace_subscriber");
+    }
+    if a.send_history != 0 {
+        r.classes.push("evaluated_on_used_sender");
+    }
     r
 }
 
-/// Without a subscriber first, then (if that passed) with one: used for shrinking and replay, where
-/// the case alone must decide the outcome.
-fn guarded_both<C>(check: &(dyn Fn(&C) -> CaseResult + Sync), case: &C) -> CaseResult {
-    let r = guarded(check, case);
+/// Plain first, then every other ambient combination until one fails: used for shrinking and replay,
+/// where the case alone must decide the outcome.
+fn guarded_all<C>(check: &(dyn Fn(&C) -> CaseResult + Sync), case: &C) -> CaseResult {
+    let r = guarded_in(PLAIN, check, case);
     if matches!(r.outcome, Outcome::Fail(_)) {
         return r;
     }
-    let t = guarded_traced(check, case);
-    if matches!(t.outcome, Outcome::Fail(_)) {
-        return t;
+    for a in all_ambients().filter(|a| *a != PLAIN) {
+        let t = guarded_in(a, check, case);
+        if matches!(t.outcome, Outcome::Fail(_)) {
+            return t;
+        }
     }
     r
 }
@@ -479,7 +529,7 @@ where
                                     Err(_) => continue,
                                 };
                                 let case = tree.current();
-                                let res = if i % 4 == 3 { guarded_traced(check, &case) } else { guarded(check, &case) };
+                                let res = guarded_in(ambient_for(i), check, &case);
                                 if let Outcome::Fail(reason) = &res.outcome {
                                     stop.store(true, Ordering::Relaxed);
                                     // shrink (proptest's algorithm, bounded)
@@ -492,7 +542,7 @@ where
                                                 break;
                                             }
                                             let cur = tree.current();
-                                            let r = guarded_both(check, &cur);
+                                            let r = guarded_all(check, &cur);
                                             if let Outcome::Fail(reason) = r.outcome {
                                                 best = (cur, reason);
                                                 if !tree.simplify() {
@@ -530,7 +580,7 @@ where
 
     fn replay(&self, case: &Value) -> Result<CaseResult, String> {
         let case: C = serde_json::from_value(case.clone()).map_err(|e| e.to_string())?;
-        Ok(guarded_both(&*self.check, &case))
+        Ok(guarded_all(&*self.check, &case))
     }
 }
 
@@ -573,7 +623,7 @@ where
                                 if stop.load(Ordering::Relaxed) {
                                     break;
                                 }
-                                let res = if (i / WORKERS) % 4 == 3 { guarded_both(check, &case) } else { guarded(check, &case) };
+                                let res = if (i / WORKERS) % 4 == 3 { guarded_all(check, &case) } else { guarded(check, &case) };
                                 if let Outcome::Fail(reason) = &res.outcome {
                                     stop.store(true, Ordering::Relaxed);
                                     failures.lock().unwrap().push((
@@ -603,7 +653,7 @@ where
 
     fn replay(&self, case: &Value) -> Result<CaseResult, String> {
         let case: C = serde_json::from_value(case.clone()).map_err(|e| e.to_string())?;
-        Ok(guarded_both(&*self.check, &case))
+        Ok(guarded_all(&*self.check, &case))
     }
 }
 
